@@ -19,13 +19,26 @@ def pad4 (n : Nat) : Str :=
   if n < 10 then s "000" ++ natDigits n else if n < 100 then s "00" ++ natDigits n
   else if n < 1000 then '0' :: natDigits n else natDigits n
 
+/-- `not c.isprintable()` for the characters that occur: the ASCII controls and the table lifted from the harness'
+    alphabet by running Python (Gen.OptionTable.nonPrintable) -/
+def isNonPrintable (c : Char) : Bool :=
+  c.toNat < 32 || c.toNat = 127 || Gen.OptionTable.nonPrintable.contains c.toNat
+
+/-- `n` as `k` lower-case hexadecimal digits -/
+def hexDigits : Nat → Nat → Str
+  | 0, _ => []
+  | k + 1, n => hexDigits k (n / 16) ++ [hexDigit (n % 16)]
+
 def reprChar (q : Char) (c : Char) : Str :=
   if c = '\\' then ['\\', '\\']
   else if c = q then ['\\', q]
   else if c = '\n' then ['\\', 'n']
   else if c = '\r' then ['\\', 'r']
   else if c = '\t' then ['\\', 't']
-  else if c.toNat < 32 || c.toNat = 127 then ['\\', 'x', hexDigit (c.toNat / 16), hexDigit (c.toNat % 16)]
+  else if isNonPrintable c then
+    (if c.toNat < 256 then '\\' :: 'x' :: hexDigits 2 c.toNat
+     else if c.toNat < 65536 then '\\' :: 'u' :: hexDigits 4 c.toNat
+     else '\\' :: 'U' :: hexDigits 8 c.toNat)
   else [c]
 
 def reprBody (q : Char) : Str → Str
@@ -134,7 +147,15 @@ def pyEscape (e : Char) : Option (Option Char) :=
   else if e = 'x' || e = 'u' || e = 'U' || e = 'N' || isDigit e || e = '\n' then none
   else some none
 
-/-- body of a Python string literal opened with `q`; `valueError` = an escape outside the model -/
+/-- the value of a list of hexadecimal digits -/
+def hexOf : Str → Option Nat
+  | [] => some 0
+  | l => l.foldl (fun acc c => match acc, hexVal c with
+      | some v, some d => some (v * 16 + d)
+      | _, _ => none) (some 0)
+
+/-- body of a Python string literal opened with `q`; `valueError` = an escape outside the model
+    (`\N{…}`, octal); a raw line break (LF or CR) ends the line: SyntaxError -/
 def readPyStr (q : Char) : Str → Except RouteErr (Str × Str)
   | [] => .error .syntaxError
   | c :: r =>
@@ -142,6 +163,31 @@ def readPyStr (q : Char) : Str → Except RouteErr (Str × Str)
       match r with
       | [] => .error .syntaxError
       | e :: r1 =>
+        if e = 'x' then
+          match r1 with
+          | a :: b :: r2 =>
+            match hexOf [a, b], readPyStr q r2 with
+            | some v, .ok (x, rest) => .ok (Char.ofNat v :: x, rest)
+            | none, _ => .error .syntaxError
+            | _, .error err => .error err
+          | _ => .error .syntaxError
+        else if e = 'u' then
+          match r1 with
+          | a :: b :: c :: d :: r2 =>
+            match hexOf [a, b, c, d], readPyStr q r2 with
+            | some v, .ok (x, rest) => .ok (Char.ofNat v :: x, rest)
+            | none, _ => .error .syntaxError
+            | _, .error err => .error err
+          | _ => .error .syntaxError
+        else if e = 'U' then
+          match r1 with
+          | a :: b :: c :: d :: a' :: b' :: c' :: d' :: r2 =>
+            match hexOf [a, b, c, d, a', b', c', d'], readPyStr q r2 with
+            | some v, .ok (x, rest) => .ok (Char.ofNat v :: x, rest)
+            | none, _ => .error .syntaxError
+            | _, .error err => .error err
+          | _ => .error .syntaxError
+        else
         match pyEscape e with
         | none => .error .valueError
         | some esc =>
@@ -152,7 +198,7 @@ def readPyStr (q : Char) : Str → Except RouteErr (Str × Str)
             | some ch => .ok (ch :: x, rest)
             | none => .ok ('\\' :: e :: x, rest)
     else if c = q then .ok ([], r)
-    else if c = '\n' then .error .syntaxError
+    else if c = '\n' || c = '\r' then .error .syntaxError
     else match readPyStr q r with
       | .ok (x, rest) => .ok (c :: x, rest)
       | .error err => .error err
